@@ -265,21 +265,21 @@ rc5_inst!(u32, U12, U16, m=w32, o=orc32, u=4, t=26, c=4, b=16, unw=80;
 rc5_inst!(u32, U16, U16, m=w32, o=orc32, u=4, t=34, c=4, b=16, unw=104;
     t32_16_16_ks, t32_16_16_enc, t32_16_16_dec, t32_16_16_rt1, t32_16_16_rt2, t32_16_16_api_enc, t32_16_16_api_dec);
 // RC5-64/24/24: RC5<u64, U24, U24>  (t = 50, c = 3)
-// @ob name=t64_24_24_ks props=C10,C20 kind=contract uses=c_word_u8,c_word_u16,c_word_u32,c_word_u64,c_word_u128 fn=rc5::RC5::substitute_key,rc5::RC5::key_into_words,rc5::RC5::initialize_expanded_key_table,rc5::RC5::mix_in timeout=600 note="RC5-64/24/24"
-// @ob name=t64_24_24_enc props=C10,C20 kind=contract fn=rc5::RC5::encrypt_block,rc5::RC5::words_from_block,rc5::RC5::block_from_words timeout=600 note="RC5-64/24/24"
+// @ob name=t64_24_24_ks tier=thorough timeout=3600 props=C10,C20 kind=contract uses=c_word_u8,c_word_u16,c_word_u32,c_word_u64,c_word_u128 fn=rc5::RC5::substitute_key,rc5::RC5::key_into_words,rc5::RC5::initialize_expanded_key_table,rc5::RC5::mix_in note="RC5-64/24/24"
+// @ob name=t64_24_24_enc tier=thorough timeout=3600 props=C10,C20 kind=contract fn=rc5::RC5::encrypt_block,rc5::RC5::words_from_block,rc5::RC5::block_from_words note="RC5-64/24/24"
 // @ob name=t64_24_24_dec props=C10,C20 kind=contract fn=rc5::RC5::decrypt_block,rc5::RC5::words_from_block,rc5::RC5::block_from_words timeout=600 note="RC5-64/24/24"
-// @ob name=t64_24_24_rt1 props=C01 kind=contract fn=rc5::RC5::encrypt_block,rc5::RC5::decrypt_block timeout=600 note="RC5-64/24/24"
-// @ob name=t64_24_24_rt2 props=C01 kind=contract fn=rc5::RC5::encrypt_block,rc5::RC5::decrypt_block timeout=600 note="RC5-64/24/24"
+// @ob name=t64_24_24_rt1 tier=thorough timeout=3600 props=C01 kind=contract fn=rc5::RC5::encrypt_block,rc5::RC5::decrypt_block note="RC5-64/24/24"
+// @ob name=t64_24_24_rt2 tier=thorough timeout=3600 props=C01 kind=contract fn=rc5::RC5::encrypt_block,rc5::RC5::decrypt_block note="RC5-64/24/24"
 // (not verified within this round: unregistered) @-ob name=t64_24_24_api_enc props=C10,C20 kind=contract tier=thorough uses=c_word_u8,c_word_u16,c_word_u32,c_word_u64,c_word_u128 fn=rc5::RC5::new,rc5::RC5::encrypt_block timeout=3600 note="RC5-64/24/24"
 // (not verified within this round: unregistered) @-ob name=t64_24_24_api_dec props=C10,C20 kind=contract tier=thorough uses=c_word_u8,c_word_u16,c_word_u32,c_word_u64,c_word_u128 fn=rc5::RC5::new,rc5::RC5::decrypt_block timeout=3600 note="RC5-64/24/24"
 rc5_inst!(u64, U24, U24, m=w64, o=orc64, u=8, t=50, c=3, b=24, unw=152;
     t64_24_24_ks, t64_24_24_enc, t64_24_24_dec, t64_24_24_rt1, t64_24_24_rt2, t64_24_24_api_enc, t64_24_24_api_dec);
 // RC5-128/28/32: RC5<u128, U28, U32>  (t = 58, c = 2)
-// @ob name=t128_28_32_ks props=C10,C20 kind=contract uses=c_word_u8,c_word_u16,c_word_u32,c_word_u64,c_word_u128 fn=rc5::RC5::substitute_key,rc5::RC5::key_into_words,rc5::RC5::initialize_expanded_key_table,rc5::RC5::mix_in timeout=600 note="RC5-128/28/32"
-// @ob name=t128_28_32_enc props=C10,C20 kind=contract fn=rc5::RC5::encrypt_block,rc5::RC5::words_from_block,rc5::RC5::block_from_words timeout=600 note="RC5-128/28/32"
-// @ob name=t128_28_32_dec props=C10,C20 kind=contract fn=rc5::RC5::decrypt_block,rc5::RC5::words_from_block,rc5::RC5::block_from_words timeout=600 note="RC5-128/28/32"
-// @ob name=t128_28_32_rt1 props=C01 kind=contract fn=rc5::RC5::encrypt_block,rc5::RC5::decrypt_block timeout=600 note="RC5-128/28/32"
-// @ob name=t128_28_32_rt2 props=C01 kind=contract fn=rc5::RC5::encrypt_block,rc5::RC5::decrypt_block timeout=600 note="RC5-128/28/32"
+// @ob name=t128_28_32_ks tier=thorough timeout=3600 props=C10,C20 kind=contract uses=c_word_u8,c_word_u16,c_word_u32,c_word_u64,c_word_u128 fn=rc5::RC5::substitute_key,rc5::RC5::key_into_words,rc5::RC5::initialize_expanded_key_table,rc5::RC5::mix_in note="RC5-128/28/32"
+// @ob name=t128_28_32_enc tier=thorough timeout=3600 props=C10,C20 kind=contract fn=rc5::RC5::encrypt_block,rc5::RC5::words_from_block,rc5::RC5::block_from_words note="RC5-128/28/32"
+// @ob name=t128_28_32_dec tier=thorough timeout=3600 props=C10,C20 kind=contract fn=rc5::RC5::decrypt_block,rc5::RC5::words_from_block,rc5::RC5::block_from_words note="RC5-128/28/32"
+// @ob name=t128_28_32_rt1 tier=thorough timeout=3600 props=C01 kind=contract fn=rc5::RC5::encrypt_block,rc5::RC5::decrypt_block note="RC5-128/28/32"
+// @ob name=t128_28_32_rt2 tier=thorough timeout=3600 props=C01 kind=contract fn=rc5::RC5::encrypt_block,rc5::RC5::decrypt_block note="RC5-128/28/32"
 // (not verified within this round: unregistered) @-ob name=t128_28_32_api_enc props=C10,C20 kind=contract tier=thorough uses=c_word_u8,c_word_u16,c_word_u32,c_word_u64,c_word_u128 fn=rc5::RC5::new,rc5::RC5::encrypt_block timeout=3600 note="RC5-128/28/32"
 // (not verified within this round: unregistered) @-ob name=t128_28_32_api_dec props=C10,C20 kind=contract tier=thorough uses=c_word_u8,c_word_u16,c_word_u32,c_word_u64,c_word_u128 fn=rc5::RC5::new,rc5::RC5::decrypt_block timeout=3600 note="RC5-128/28/32"
 rc5_inst!(u128, U28, U32, m=w128, o=orc128, u=16, t=58, c=2, b=32, unw=176;
@@ -305,11 +305,11 @@ rc5_inst!(u32, U0, U16, m=w32, o=orc32, u=4, t=2, c=4, b=16, unw=18;
 rc5_inst!(u32, U1, U16, m=w32, o=orc32, u=4, t=4, c=4, b=16, unw=18;
     r1_32_1_16_ks, r1_32_1_16_enc, r1_32_1_16_dec, r1_32_1_16_rt1, r1_32_1_16_rt2, r1_32_1_16_api_enc, r1_32_1_16_api_dec);
 // RC5-8/255/4: RC5<u8, U255, U4>  (t = 512, c = 4)
-// @ob name=r255_8_255_4_ks props=C10,C20 kind=contract uses=c_word_u8,c_word_u16,c_word_u32,c_word_u64,c_word_u128 fn=rc5::RC5::substitute_key,rc5::RC5::key_into_words,rc5::RC5::initialize_expanded_key_table,rc5::RC5::mix_in timeout=600 note="RC5-8/255/4"
+// @ob name=r255_8_255_4_ks tier=thorough timeout=3600 props=C10,C20 kind=contract uses=c_word_u8,c_word_u16,c_word_u32,c_word_u64,c_word_u128 fn=rc5::RC5::substitute_key,rc5::RC5::key_into_words,rc5::RC5::initialize_expanded_key_table,rc5::RC5::mix_in note="RC5-8/255/4"
 // @ob name=r255_8_255_4_enc props=C10,C20 kind=contract fn=rc5::RC5::encrypt_block,rc5::RC5::words_from_block,rc5::RC5::block_from_words timeout=600 note="RC5-8/255/4"
-// @ob name=r255_8_255_4_dec props=C10,C20 kind=contract fn=rc5::RC5::decrypt_block,rc5::RC5::words_from_block,rc5::RC5::block_from_words timeout=600 note="RC5-8/255/4"
-// @ob name=r255_8_255_4_rt1 props=C01 kind=contract fn=rc5::RC5::encrypt_block,rc5::RC5::decrypt_block timeout=600 note="RC5-8/255/4"
-// @ob name=r255_8_255_4_rt2 props=C01 kind=contract fn=rc5::RC5::encrypt_block,rc5::RC5::decrypt_block timeout=600 note="RC5-8/255/4"
+// @ob name=r255_8_255_4_dec tier=thorough timeout=3600 props=C10,C20 kind=contract fn=rc5::RC5::decrypt_block,rc5::RC5::words_from_block,rc5::RC5::block_from_words note="RC5-8/255/4"
+// @ob name=r255_8_255_4_rt1 tier=thorough timeout=3600 props=C01 kind=contract fn=rc5::RC5::encrypt_block,rc5::RC5::decrypt_block note="RC5-8/255/4"
+// @ob name=r255_8_255_4_rt2 tier=thorough timeout=3600 props=C01 kind=contract fn=rc5::RC5::encrypt_block,rc5::RC5::decrypt_block note="RC5-8/255/4"
 // (not verified within this round: unregistered) @-ob name=r255_8_255_4_api_enc props=C10,C20 kind=contract tier=thorough uses=c_word_u8,c_word_u16,c_word_u32,c_word_u64,c_word_u128 fn=rc5::RC5::new,rc5::RC5::encrypt_block timeout=3600 note="RC5-8/255/4"
 // (not verified within this round: unregistered) @-ob name=r255_8_255_4_api_dec props=C10,C20 kind=contract tier=thorough uses=c_word_u8,c_word_u16,c_word_u32,c_word_u64,c_word_u128 fn=rc5::RC5::new,rc5::RC5::decrypt_block timeout=3600 note="RC5-8/255/4"
 rc5_inst!(u8, U255, U4, m=w8, o=orc8big, u=1, t=512, c=4, b=4, unw=1538;
@@ -345,7 +345,7 @@ rc5_inst!(u32, U12, U3, m=w32, o=orc32, u=4, t=26, c=1, b=3, unw=80;
 rc5_inst!(u32, U12, U7, m=w32, o=orc32, u=4, t=26, c=2, b=7, unw=80;
     b7_32_12_7_ks, b7_32_12_7_enc, b7_32_12_7_dec, b7_32_12_7_rt1, b7_32_12_7_rt2, b7_32_12_7_api_enc, b7_32_12_7_api_dec);
 // RC5-32/12/255: RC5<u32, U12, U255>  (t = 26, c = 64)
-// @ob name=b255_32_12_255_ks props=C10,C20 kind=contract uses=c_word_u8,c_word_u16,c_word_u32,c_word_u64,c_word_u128 fn=rc5::RC5::substitute_key,rc5::RC5::key_into_words,rc5::RC5::initialize_expanded_key_table,rc5::RC5::mix_in timeout=600 note="RC5-32/12/255"
+// @ob name=b255_32_12_255_ks tier=thorough timeout=3600 props=C10,C20 kind=contract uses=c_word_u8,c_word_u16,c_word_u32,c_word_u64,c_word_u128 fn=rc5::RC5::substitute_key,rc5::RC5::key_into_words,rc5::RC5::initialize_expanded_key_table,rc5::RC5::mix_in note="RC5-32/12/255"
 // (same block functions as above) @-ob name=b255_32_12_255_enc props=C10,C20 kind=contract fn=rc5::RC5::encrypt_block,rc5::RC5::words_from_block,rc5::RC5::block_from_words timeout=600 note="RC5-32/12/255"
 // (same block functions as above) @-ob name=b255_32_12_255_dec props=C10,C20 kind=contract fn=rc5::RC5::decrypt_block,rc5::RC5::words_from_block,rc5::RC5::block_from_words timeout=600 note="RC5-32/12/255"
 // (same block functions as above) @-ob name=b255_32_12_255_rt1 props=C01 kind=contract fn=rc5::RC5::encrypt_block,rc5::RC5::decrypt_block timeout=600 note="RC5-32/12/255"
@@ -369,23 +369,23 @@ rc5_inst!(u16, U12, U3, m=w16, o=orc16, u=2, t=26, c=2, b=3, unw=80;
 // @ob name=n64_12_9_enc props=C10,C20 kind=contract fn=rc5::RC5::encrypt_block,rc5::RC5::words_from_block,rc5::RC5::block_from_words timeout=600 note="RC5-64/12/9"
 // @ob name=n64_12_9_dec props=C10,C20 kind=contract fn=rc5::RC5::decrypt_block,rc5::RC5::words_from_block,rc5::RC5::block_from_words timeout=600 note="RC5-64/12/9"
 // @ob name=n64_12_9_rt1 props=C01 kind=contract fn=rc5::RC5::encrypt_block,rc5::RC5::decrypt_block timeout=600 note="RC5-64/12/9"
-// @ob name=n64_12_9_rt2 props=C01 kind=contract fn=rc5::RC5::encrypt_block,rc5::RC5::decrypt_block timeout=600 note="RC5-64/12/9"
+// @ob name=n64_12_9_rt2 tier=thorough timeout=3600 props=C01 kind=contract fn=rc5::RC5::encrypt_block,rc5::RC5::decrypt_block note="RC5-64/12/9"
 // (not verified within this round: unregistered) @-ob name=n64_12_9_api_enc props=C10,C20 kind=contract tier=thorough uses=c_word_u8,c_word_u16,c_word_u32,c_word_u64,c_word_u128 fn=rc5::RC5::new,rc5::RC5::encrypt_block timeout=3600 note="RC5-64/12/9"
 // (not verified within this round: unregistered) @-ob name=n64_12_9_api_dec props=C10,C20 kind=contract tier=thorough uses=c_word_u8,c_word_u16,c_word_u32,c_word_u64,c_word_u128 fn=rc5::RC5::new,rc5::RC5::decrypt_block timeout=3600 note="RC5-64/12/9"
 rc5_inst!(u64, U12, U9, m=w64, o=orc64, u=8, t=26, c=2, b=9, unw=80;
     n64_12_9_ks, n64_12_9_enc, n64_12_9_dec, n64_12_9_rt1, n64_12_9_rt2, n64_12_9_api_enc, n64_12_9_api_dec);
 // RC5-128/12/17: RC5<u128, U12, U17>  (t = 26, c = 2)
-// @ob name=n128_12_17_ks props=C10,C20 kind=contract uses=c_word_u8,c_word_u16,c_word_u32,c_word_u64,c_word_u128 fn=rc5::RC5::substitute_key,rc5::RC5::key_into_words,rc5::RC5::initialize_expanded_key_table,rc5::RC5::mix_in timeout=600 note="RC5-128/12/17"
-// @ob name=n128_12_17_enc props=C10,C20 kind=contract fn=rc5::RC5::encrypt_block,rc5::RC5::words_from_block,rc5::RC5::block_from_words timeout=600 note="RC5-128/12/17"
+// @ob name=n128_12_17_ks tier=thorough timeout=3600 props=C10,C20 kind=contract uses=c_word_u8,c_word_u16,c_word_u32,c_word_u64,c_word_u128 fn=rc5::RC5::substitute_key,rc5::RC5::key_into_words,rc5::RC5::initialize_expanded_key_table,rc5::RC5::mix_in note="RC5-128/12/17"
+// @ob name=n128_12_17_enc tier=thorough timeout=3600 props=C10,C20 kind=contract fn=rc5::RC5::encrypt_block,rc5::RC5::words_from_block,rc5::RC5::block_from_words note="RC5-128/12/17"
 // @ob name=n128_12_17_dec props=C10,C20 kind=contract fn=rc5::RC5::decrypt_block,rc5::RC5::words_from_block,rc5::RC5::block_from_words timeout=600 note="RC5-128/12/17"
-// @ob name=n128_12_17_rt1 props=C01 kind=contract fn=rc5::RC5::encrypt_block,rc5::RC5::decrypt_block timeout=600 note="RC5-128/12/17"
-// @ob name=n128_12_17_rt2 props=C01 kind=contract fn=rc5::RC5::encrypt_block,rc5::RC5::decrypt_block timeout=600 note="RC5-128/12/17"
+// @ob name=n128_12_17_rt1 tier=thorough timeout=3600 props=C01 kind=contract fn=rc5::RC5::encrypt_block,rc5::RC5::decrypt_block note="RC5-128/12/17"
+// @ob name=n128_12_17_rt2 tier=thorough timeout=3600 props=C01 kind=contract fn=rc5::RC5::encrypt_block,rc5::RC5::decrypt_block note="RC5-128/12/17"
 // (not verified within this round: unregistered) @-ob name=n128_12_17_api_enc props=C10,C20 kind=contract tier=thorough uses=c_word_u8,c_word_u16,c_word_u32,c_word_u64,c_word_u128 fn=rc5::RC5::new,rc5::RC5::encrypt_block timeout=3600 note="RC5-128/12/17"
 // (not verified within this round: unregistered) @-ob name=n128_12_17_api_dec props=C10,C20 kind=contract tier=thorough uses=c_word_u8,c_word_u16,c_word_u32,c_word_u64,c_word_u128 fn=rc5::RC5::new,rc5::RC5::decrypt_block timeout=3600 note="RC5-128/12/17"
 rc5_inst!(u128, U12, U17, m=w128, o=orc128, u=16, t=26, c=2, b=17, unw=80;
     n128_12_17_ks, n128_12_17_enc, n128_12_17_dec, n128_12_17_rt1, n128_12_17_rt2, n128_12_17_api_enc, n128_12_17_api_dec);
 // RC5-8/12/255: RC5<u8, U12, U255>  (t = 26, c = 255)
-// @ob name=b255_8_12_255_ks props=C10,C20 kind=contract uses=c_word_u8,c_word_u16,c_word_u32,c_word_u64,c_word_u128 fn=rc5::RC5::substitute_key,rc5::RC5::key_into_words,rc5::RC5::initialize_expanded_key_table,rc5::RC5::mix_in timeout=600 note="RC5-8/12/255"
+// @ob name=b255_8_12_255_ks tier=thorough timeout=3600 props=C10,C20 kind=contract uses=c_word_u8,c_word_u16,c_word_u32,c_word_u64,c_word_u128 fn=rc5::RC5::substitute_key,rc5::RC5::key_into_words,rc5::RC5::initialize_expanded_key_table,rc5::RC5::mix_in note="RC5-8/12/255"
 // (same block functions as above) @-ob name=b255_8_12_255_enc props=C10,C20 kind=contract fn=rc5::RC5::encrypt_block,rc5::RC5::words_from_block,rc5::RC5::block_from_words timeout=600 note="RC5-8/12/255"
 // (same block functions as above) @-ob name=b255_8_12_255_dec props=C10,C20 kind=contract fn=rc5::RC5::decrypt_block,rc5::RC5::words_from_block,rc5::RC5::block_from_words timeout=600 note="RC5-8/12/255"
 // (same block functions as above) @-ob name=b255_8_12_255_rt1 props=C01 kind=contract fn=rc5::RC5::encrypt_block,rc5::RC5::decrypt_block timeout=600 note="RC5-8/12/255"
@@ -554,7 +554,7 @@ macro_rules! mb_body {
 }
 // (times out at 300 s: unregistered) @-ob name=k_32_12_16_keylen props=C11 kind=bounded bound="slice length <= 300" fn=rc5::RC5::new_from_slice timeout=300 note="RC5-32/12/16"
 // (times out at 300 s: unregistered) @-ob name=k_32_12_16_same props=C11,C12,C13 kind=contract fn=rc5::RC5::new_from_slice,rc5::RC5::new,rc5::RC5::clone,rc5::RC5::weak_key_test,rc5::RC5::new_checked timeout=300 note="RC5-32/12/16"
-// @ob name=m_32_12_16_blocks props=C04,C15 kind=bounded bound="n in {0, 1, 3} blocks (ParBlocksSize = 1)" fn=rc5::RC5::encrypt_with_backend,rc5::RC5::encrypt_block timeout=600 note="RC5-32/12/16"
+// @ob name=m_32_12_16_blocks tier=thorough timeout=3600 props=C04,C15 kind=bounded bound="n in {0, 1, 3} blocks (ParBlocksSize = 1)" fn=rc5::RC5::encrypt_with_backend,rc5::RC5::encrypt_block note="RC5-32/12/16"
 // @ob name=z_32_12_16 props=C16 cfg=zeroize kind=contract fn=rc5::RC5::drop,rc5::RC5::clone timeout=300 note="RC5-32/12/16"
 rc5_api!(u32, U12, U16, u=4, t=26, b=16, unw=80; k_32_12_16_keylen, k_32_12_16_same, m_32_12_16_blocks, z_32_12_16);
 // @ob name=k_8_12_4_keylen props=C11 kind=bounded bound="slice length <= 300" fn=rc5::RC5::new_from_slice timeout=300 note="RC5-8/12/4"
@@ -564,6 +564,6 @@ rc5_api!(u32, U12, U16, u=4, t=26, b=16, unw=80; k_32_12_16_keylen, k_32_12_16_s
 rc5_api!(u8, U12, U4, u=1, t=26, b=4, unw=80; k_8_12_4_keylen, k_8_12_4_same, m_8_12_4_blocks, z_8_12_4);
 // (times out at 300 s: unregistered) @-ob name=k_128_28_32_keylen props=C11 kind=bounded bound="slice length <= 300" fn=rc5::RC5::new_from_slice timeout=300 note="RC5-128/28/32"
 // (times out at 300 s: unregistered) @-ob name=k_128_28_32_same props=C11,C12,C13 kind=contract fn=rc5::RC5::new_from_slice,rc5::RC5::new,rc5::RC5::clone,rc5::RC5::weak_key_test,rc5::RC5::new_checked timeout=300 note="RC5-128/28/32"
-// @ob name=m_128_28_32_blocks props=C04,C15 kind=bounded bound="n in {0, 1, 3} blocks (ParBlocksSize = 1)" fn=rc5::RC5::encrypt_with_backend,rc5::RC5::encrypt_block timeout=600 note="RC5-128/28/32"
+// @ob name=m_128_28_32_blocks tier=thorough timeout=3600 props=C04,C15 kind=bounded bound="n in {0, 1, 3} blocks (ParBlocksSize = 1)" fn=rc5::RC5::encrypt_with_backend,rc5::RC5::encrypt_block note="RC5-128/28/32"
 // @ob name=z_128_28_32 props=C16 cfg=zeroize kind=contract fn=rc5::RC5::drop,rc5::RC5::clone timeout=300 note="RC5-128/28/32"
 rc5_api!(u128, U28, U32, u=16, t=58, b=32, unw=180; k_128_28_32_keylen, k_128_28_32_same, m_128_28_32_blocks, z_128_28_32);
